@@ -191,10 +191,20 @@ def run(ctx):
              "pred": {"ok": s["ok"], "passes": s["passes"], "pushes": s["pushes"], "err": s["err"]},
              "tgt": rng.choice(["reg", "reg", "dir"]), "gzip": rng.choice([0, 0, 1])}
         j["xn"] = "tag"
+        # dimensions of the archive and of the environment that the importer automaton does not see; drawn
+        # independently per scenario, which covers all pairs many times over at either tier
+        j["rcomp"] = rng.choice(["none", "none", "gzip", "zstd", "xz"])      # compression of the re-packed archive
+        j["tarfmt"] = rng.choice(["pax", "pax", "gnu", "ustar"])             # tar header format
+        j["tfeat"] = rng.choice(["default", "minimal"]) if j["tgt"] == "reg" else "default"   # target registry features
+        j["chunk"] = rng.choice([0, 0, 1]) if j["tgt"] == "reg" else 0       # client uploads in 128 byte chunks
+        j["sfeat"], j["dkcomp"], j["dkls"] = "default", "none", 0
         if cat["kind"] == "docker" and cat["lp"] != "dkrest":
-            j["src"], j["xref"], j["dkgz"] = "none", 0, rng.choice([0, 1])
+            j["src"], j["xref"] = "none", 0
+            j["dkcomp"], j["dkls"] = rng.choice(["none", "gzip", "zstd", "xz"]), rng.choice([0, 1])
         else:
-            j["src"], j["xref"], j["dkgz"] = rng.choice(["reg", "dir"]), rng.choice([0, 0, 0, 1]), 0
+            j["src"], j["xref"] = rng.choice(["reg", "dir"]), rng.choice([0, 0, 0, 1])
+            if j["src"] == "reg":
+                j["sfeat"] = rng.choice(["default", "default", "minimal"])   # source registry features
             if len(cat["roots"]) > 1:
                 j["xref"] = 0       # the selections of the catalogue name the tags the images are exported under
             else:
@@ -208,15 +218,16 @@ def run(ctx):
     for j in jobs:
         cat = cats["/".join(j["sid"])]["sc"]
         if cat["kind"] == "oci" and len(cat["roots"]) == 1:
-            groups.setdefault((cat["g"], j["src"], j["gzip"], j["xref"], j["xn"]), j)
-    for (g, src, gz, xr, xn), j in sorted(groups.items()):
+            groups.setdefault((cat["g"], j["src"], j["sfeat"], j["gzip"], j["xref"], j["xn"]), j)
+    for (g, src, sf, gz, xr, xn), j in sorted(groups.items()):
         for tgt in ("reg", "dir"):
             n += 1
             sid = [g, "none", "def"]
             if "/".join(sid) not in cats:
                 continue
             jobs.append({"id": "%s/asis#%d" % (g, n), "sid": sid, "arch": [], "origin": "asis", "src": src, "tgt": tgt,
-                         "gzip": gz, "xref": xr, "xn": xn, "dkgz": 0})
+                         "sfeat": sf, "gzip": gz, "xref": xr, "xn": xn, "tfeat": rng.choice(["default", "minimal"]) if tgt == "reg" else "default",
+                         "chunk": rng.choice([0, 1]) if tgt == "reg" else 0})
     with open(drv_in, "w") as f:
         for k in sorted(cats):
             f.write(json.dumps({"type": "cat", "sid": cats[k]["sid"], "cat": cats[k]["sc"]}) + "\n")
@@ -331,9 +342,10 @@ def run(ctx):
         msg = t["meta"].get("err", "")
         kind = "docker" if b["kind"] == "docker" else "import"
         sig = "%s:%s:%s:%s:%s" % (kind, clause, g, lp, err_class(msg))
-        what = "%s; scenario %s (%s -> %s, gzip=%s, export name %s%s%s)%s" % (
+        dims = " ".join("%s=%s" % (k, scn[k]) for k in ("sfeat", "tfeat", "chunk", "rcomp", "tarfmt", "dkcomp", "dkls") if scn.get(k) not in (None, 0, "default", "none", "pax"))
+        what = "%s; scenario %s (%s -> %s, gzip=%s, export name %s%s%s%s)%s" % (
             detail, t["id"], scn.get("src"), scn.get("tgt"), scn.get("gzip"), scn.get("xn"),
-            " overridden" if scn.get("xref") else "",
+            " overridden" if scn.get("xref") else "", (", " + dims) if dims else "",
             ", selection " + sel if sel != "def" else "", ("; ImageImport: " + msg[:300]) if msg else "")
         small = {k: v for k, v in e.items() if k not in ("od", "os", "oa", "oh")}
         ctx.report(sig, what, {"scenario": scn, "block": b["block"], "rejected_event": small, "meta": t["meta"],
@@ -451,7 +463,7 @@ def run(ctx):
         "traces_validated_against_impl": accepted,
         "samples": sample,
         "evaluations": len(traces) + len(blocks),
-        "distinct_nontrivial": len({json.dumps([t["scn"]["sid"], t["scn"]["arch"], t["scn"]["src"], t["scn"]["tgt"], t["scn"]["gzip"]])
+        "distinct_nontrivial": len({json.dumps([t["scn"]["sid"], t["scn"]["arch"]] + [t["scn"].get(k) for k in ("src", "tgt", "gzip", "rcomp", "tarfmt", "tfeat", "chunk", "xn", "xref", "dkcomp", "dkls")])
                                     for _, t in traces if t["meta"].get("passes", 0) > 1 or t["scn"]["sid"][1] != "none"}),
         "rule": "a trace = one archive (order of entries, link / naming pattern, compression chosen by TLC / seeded) "
                 "built from the audited stream of a real ImageExport and imported by the real ImageImport into a fresh "
@@ -467,6 +479,8 @@ def run(ctx):
         "drift": drift, "drift_samples": drift_samples,
         "vacuous_actions": vacuous if vacuous is not None else "checked in the thorough tier",
         "actions_taken_only_with_as_found_switches": only_as_found if only_as_found is not None else "checked in the thorough tier",
+        "dimension_values_seen": {k: sorted({str(t["scn"].get(k)) for _, t in traces if t["scn"].get(k) is not None})
+                                  for k in ("src", "tgt", "sfeat", "tfeat", "chunk", "gzip", "rcomp", "tarfmt", "xn", "xref", "dkcomp", "dkls")},
         "export_names": sorted({"%s%s" % (t["scn"].get("xn"), "+override" if t["scn"].get("xref") else "") for _, t in traces}),
         "entry_points": ["RegClient.ImageExport", "RegClient.ImageImport", "ImageWithExportCompress", "ImageWithExportRef",
                          "ImageWithImportName", "scheme reg + ocidir blob/manifest put"],
